@@ -434,6 +434,11 @@ func storeHistory(o *Out, r *rand.Rand, h, nPuts int, thorough bool) {
 		default:
 			n = r.Intn(limit + 1)
 		}
+		if i == 0 && h%6 == 5 {
+			// the very first item is larger than the whole capacity: the pruning pass of this put has to drop everything
+			// the store holds ("or everything it holds") - the bytes freed equal the counter exactly
+			n = int(capB) + r.Intn(1000)
+		}
 		if n > limit {
 			small = false
 		}
